@@ -148,7 +148,8 @@ def conditional_part(ck, tier):
         try:
             # one parameter at a time is how get_conditionals works; the trace keeps the per-parameter order
             marks = []
-            axes, prob = get_conditionals(posterior=post, bounds=bounds, conditioning_point=point.copy(), grid_size=64)
+            gs = (64, 32, 100)[case % 3]                                   # the default and two other grid sizes
+            axes, prob = get_conditionals(posterior=post, bounds=bounds, conditioning_point=point.copy(), grid_size=gs)
         except Exception as ex:
             ck.violation("get_conditionals raised", {**ident, "error": repr(ex)}, site="get_conditionals")
             continue
